@@ -26,6 +26,7 @@ SpecAct(e) ==
     [] e.a = "deletefile" -> DeleteFile(e.s, e.m, e.st)
     [] e.a = "postproof"  -> PostProof(e.s, e.f)
     [] e.a = "setratios"  -> SetRatios(e.ref, e.pol)
+    [] e.a = "mkgauge"    -> MkGauge(e.x.gid, e.amt, e.days)
     [] e.a = "block"      -> IF e.ok THEN Block(e.dt, ObsGone, ObsOut, ObsPay) ELSE BlockPanic(e.dt)
 
 Report_(kind, name) == PrintT(<<kind, name, l>>)
